@@ -15,6 +15,11 @@
      BootstrapOtpAuthHandler                    Bootstrap
      ShowAuthTokenHandler / SendAuthDocument    ShowTok / SendDoc   (authToken.go)
      time passing                               Tick
+     Okta2FAuthHandler (2fa_okta.go)            OktaOtp
+     oktaPushStartHandler / oktaPollCheckHandler  OktaPushStart / OktaPoll   (on lib/authenticators/okta)
+     (the phone owner, via the Okta service)    OktaApprove
+     a request with a client certificate / while profile writes fail / while the primary database is
+     slow (profiles from the cache copy)        Req cert fault o / Cached o
 
    Every handler first runs checkAuth (app.go): of the auth_cookie values attached to the request
    the LAST one is verified and names the session (user, level); updateAuthCookieAuthlevel
@@ -91,7 +96,10 @@ Record st := {
                                           last successful password check, with the user's state token) *)
   opush : N -> N;                      (* the Okta service: push verification of the user's current state token —
                                           0 not started, 1 waiting, 2 approved, 3 finished *)
-  acks : N                             (* number of requests answered 200 without a cookie or a new value *)
+  acks : N;                            (* number of requests answered 200 without a cookie or a new value *)
+  saved_totp : N -> Z                  (* profile.LastSuccessfullTOTPCounter as PERSISTED; `last_totp` is the guard the
+                                          validator applies: the larger of the persisted counter and the one kept in
+                                          memory (totpLocalRateLimit[user].lastSuccessCounter) *)
 }.
 
 Definition upd {A} (m : N -> A) (u : N) (a : A) : N -> A := fun x => if N.eqb x u then a else m x.
@@ -112,13 +120,25 @@ Record config := {
                                  authenticated one (repaired) *)
   okta_on : bool;            (* state.passwordChecker is the Okta authenticator (password logins AND the Okta
                                 second factor go to the Okta authn API) *)
-  okta_life : Z              (* lifetime of the cached primary response: expiresAt of the authn answer *)
+  okta_life : Z;             (* lifetime of the cached primary response: expiresAt of the authn answer *)
+  from_cache : bool;         (* the primary database does not answer in time: LoadUserProfile serves the copy in the
+                                cache database and says so (fromCache) — set per request, see `Cached` *)
+  totp_mem_guard : bool      (* validateUserTOTP also remembers the last accepted step in memory, so that the replay
+                                guard holds while nothing can be persisted (repaired) *)
 }.
+
+(* the same code serving one request while the primary database is slow *)
+Definition with_cache (k : config) : config :=
+  {| devs := devs k; webui := webui k; cookie_life := cookie_life k; sel_last := sel_last k; upg_last := upg_last k;
+     vip_life := vip_life k; vip_expiry := vip_expiry k; poll_checks_user := poll_checks_user k;
+     totp_monotone := totp_monotone k; chal_expiry := chal_expiry k; chal_delete_wa := chal_delete_wa k;
+     upgrade_checks_owner := upgrade_checks_owner k; okta_on := okta_on k; okta_life := okta_life k;
+     from_cache := true; totp_mem_guard := totp_mem_guard k |}.
 
 Definition init : st :=
   {| issued := []; tokens := []; vip := []; txs := []; approved := [];
      chal := fun _ => None; last_totp := fun _ => 0%Z; boot := fun _ => None;
-     proved := []; spent := []; now := 0%Z; fresh := 0; minted := []; okta := fun _ => None; opush := fun _ => 0%N; acks := 0 |}.
+     proved := []; spent := []; now := 0%Z; fresh := 0; minted := []; okta := fun _ => None; opush := fun _ => 0%N; acks := 0; saved_totp := fun _ => 0%Z |}.
 
 (* environment's view of presented values *)
 Inductive otpcode := VGood (owner : N) | VBad.                         (* VIP one-time code *)
@@ -150,7 +170,9 @@ Inductive op :=
 | OktaPushStart (cs : list nat)              (* oktaPushStartHandler *)
 | OktaApprove (u : N)                        (* the owner of u's phone approves the Okta push (environment) *)
 | OktaPoll (cs : list nat)                   (* oktaPollCheckHandler *)
-| Req (cert : option N) (fault : bool) (o : op).
+| Req (cert : option N) (fault : bool) (o : op)
+| Cached (o : op).       (* the request of o made while the primary database does not answer in time: every
+                            LoadUserProfile of the request is served from the cache copy (fromCache = true) *)
 
 (* ---- checkAuth ---- *)
 (* the auth_cookie values of a request, in order; an index that names nothing issued stands for
@@ -187,24 +209,24 @@ Definition auth (k : config) (s : st) (cert : option N) (cs : list nat) (mask : 
 
 Definition set_issued (s : st) (l : list cookie) : st :=
   {| issued := l; tokens := tokens s; vip := vip s; txs := txs s; approved := approved s; chal := chal s;
-     last_totp := last_totp s; boot := boot s; proved := proved s; spent := spent s; now := now s; fresh := fresh s; minted := minted s; okta := okta s; opush := opush s; acks := acks s |}.
+     last_totp := last_totp s; boot := boot s; proved := proved s; spent := spent s; now := now s; fresh := fresh s; minted := minted s; okta := okta s; opush := opush s; acks := acks s; saved_totp := saved_totp s |}.
 Definition set_ghost (s : st) (p : list (N * N * Z)) (sp : list onetime) : st :=
   {| issued := issued s; tokens := tokens s; vip := vip s; txs := txs s; approved := approved s; chal := chal s;
-     last_totp := last_totp s; boot := boot s; proved := p; spent := sp; now := now s; fresh := fresh s; minted := minted s; okta := okta s; opush := opush s; acks := acks s |}.
+     last_totp := last_totp s; boot := boot s; proved := p; spent := sp; now := now s; fresh := fresh s; minted := minted s; okta := okta s; opush := opush s; acks := acks s; saved_totp := saved_totp s |}.
 Definition set_chal (s : st) (c : N -> option challenge) (fr : N) : st :=
   {| issued := issued s; tokens := tokens s; vip := vip s; txs := txs s; approved := approved s; chal := c;
-     last_totp := last_totp s; boot := boot s; proved := proved s; spent := spent s; now := now s; fresh := fr; minted := minted s; okta := okta s; opush := opush s; acks := acks s |}.
+     last_totp := last_totp s; boot := boot s; proved := proved s; spent := spent s; now := now s; fresh := fr; minted := minted s; okta := okta s; opush := opush s; acks := acks s; saved_totp := saved_totp s |}.
 Definition set_boot (s : st) (b : N -> option boototp) (fr : N) : st :=
   {| issued := issued s; tokens := tokens s; vip := vip s; txs := txs s; approved := approved s; chal := chal s;
-     last_totp := last_totp s; boot := b; proved := proved s; spent := spent s; now := now s; fresh := fr; minted := minted s; okta := okta s; opush := opush s; acks := acks s |}.
-Definition set_totp (s : st) (l : N -> Z) : st :=
+     last_totp := last_totp s; boot := b; proved := proved s; spent := spent s; now := now s; fresh := fr; minted := minted s; okta := okta s; opush := opush s; acks := acks s; saved_totp := saved_totp s |}.
+Definition set_totp (s : st) (l : N -> Z) (sv : N -> Z) : st :=
   {| issued := issued s; tokens := tokens s; vip := vip s; txs := txs s; approved := approved s; chal := chal s;
-     last_totp := l; boot := boot s; proved := proved s; spent := spent s; now := now s; fresh := fresh s; minted := minted s; okta := okta s; opush := opush s; acks := acks s |}.
+     last_totp := l; boot := boot s; proved := proved s; spent := spent s; now := now s; fresh := fresh s; minted := minted s; okta := okta s; opush := opush s; acks := acks s; saved_totp := sv |}.
 
 Definition set_okta (s : st) (ok : N -> option Z) (p : N -> N) (a : N) : st :=
   {| issued := issued s; tokens := tokens s; vip := vip s; txs := txs s; approved := approved s; chal := chal s;
      last_totp := last_totp s; boot := boot s; proved := proved s; spent := spent s; now := now s;
-     fresh := fresh s; minted := minted s; okta := ok; opush := p; acks := a |}.
+     fresh := fresh s; minted := minted s; okta := ok; opush := p; acks := a; saved_totp := saved_totp s |}.
 
 (* oktaAuth.GetValidUserResponse: the cached answer of the user's last successful password check, unless
    past its expiry *)
@@ -215,7 +237,7 @@ Definition okta_valid (s : st) (u : N) : bool :=
 Definition mint (s : st) : st :=
   {| issued := issued s; tokens := tokens s; vip := vip s; txs := txs s; approved := approved s; chal := chal s;
      last_totp := last_totp s; boot := boot s; proved := proved s; spent := spent s; now := now s;
-     fresh := fresh s + 1; minted := fresh s :: minted s; okta := okta s; opush := opush s; acks := acks s |}.
+     fresh := fresh s + 1; minted := fresh s :: minted s; okta := okta s; opush := opush s; acks := acks s; saved_totp := saved_totp s |}.
 
 (* updateAuthCookieAuthlevel(w, r, username, authlevel): the LAST attached auth_cookie (the one
    checkAuth authenticated) is re-signed with the given level (which REPLACES the cookie's own; sub,
@@ -295,7 +317,7 @@ Definition step_req (cert : option N) (fault : bool) (s : st) (o : op) : st * op
                   vip := {| vc := v; vuser := u; vtx := tx; vexp := (now s + vip_life k)%Z |} :: vip s;
                   txs := (tx, u) :: txs s; approved := approved s; chal := chal s;
                   last_totp := last_totp s; boot := boot s; proved := proved s; spent := spent s;
-                  now := now s; fresh := fresh s + 1; minted := fresh s :: minted s; okta := okta s; opush := opush s; acks := acks s |}, None)
+                  now := now s; fresh := fresh s + 1; minted := fresh s :: minted s; okta := okta s; opush := opush s; acks := acks s; saved_totp := saved_totp s |}, None)
           end
       end
   | Approve tx =>
@@ -303,7 +325,7 @@ Definition step_req (cert : option N) (fault : bool) (s : st) (o : op) : st * op
       | Some u =>
           ({| issued := issued s; tokens := tokens s; vip := vip s; txs := txs s;
               approved := tx :: approved s; chal := chal s; last_totp := last_totp s; boot := boot s;
-              proved := (u, F_VIP, now s) :: proved s; spent := spent s; now := now s; fresh := fresh s; minted := minted s; okta := okta s; opush := opush s; acks := acks s |}, None)
+              proved := (u, F_VIP, now s) :: proved s; spent := spent s; now := now s; fresh := fresh s; minted := minted s; okta := okta s; opush := opush s; acks := acks s; saved_totp := saved_totp s |}, None)
       | None => (s, None)
       end
   | Poll cs v =>
@@ -334,9 +356,14 @@ Definition step_req (cert : option N) (fault : bool) (s : st) (o : op) : st * op
               if has_totp (devs k u) && N.eqb owner u && (cur - 1 <=? stp)%Z && (stp <=? cur + 1)%Z then
                 if (if totp_monotone k then (stp <=? last_totp s u)%Z else (last_totp s u =? cur)%Z)
                 then (s, None)
-                else if fault then (s, None)   (* the counter cannot be saved: error, nothing accepted *)
+                else if fault && negb (from_cache k) then (s, None)   (* the counter cannot be saved: error, nothing accepted *)
                 else
-                  let s1 := set_totp s (upd (last_totp s) u (if totp_monotone k then stp else cur)) in
+                  (* the accepted step is persisted — unless the profile came from the cache (never written
+                     back): then it is remembered in memory only (repaired code; before: not at all) *)
+                  let x := if totp_monotone k then stp else cur in
+                  let s1 := if from_cache k
+                            then (if totp_mem_guard k then set_totp s (upd (last_totp s) u x) (saved_totp s) else s)
+                            else set_totp s (upd (last_totp s) u x) (upd (saved_totp s) u x) in
                   let (s2, out) := upgrade k s1 u cs (add l F_TOTP) in
                   (set_ghost s2 ((owner, F_TOTP, now s) :: proved s2) (OtTotp owner stp :: spent s2), out)
               else (s, None)
@@ -407,7 +434,8 @@ Definition step_req (cert : option N) (fault : bool) (s : st) (o : op) : st * op
       end
   | IssueOtp target dur =>
       let d := devs k target in
-      if has_profile d && negb (has_totp d) && negb (has_u2f d) then
+      if from_cache k then (s, None)   (* "Working in db disconnected mode, try again later" *)
+      else if has_profile d && negb (has_totp d) && negb (has_u2f d) then
         let dur' := if (dur <? 60)%Z then 60%Z else dur in
         if (86400 <? dur')%Z then (s, None)
         else if fault then (s, None)
@@ -419,7 +447,8 @@ Definition step_req (cert : option N) (fault : bool) (s : st) (o : op) : st * op
       | None => (s, None)
       | Some (u, l) =>
           let d := devs k u in
-          if has_totp d || has_u2f d then (s, None)
+          if from_cache k then (s, None)   (* the OTP has to be cleared: a connection is required *)
+          else if has_totp d || has_u2f d then (s, None)
           else match boot s u with
                | None => (s, None)
                | Some b =>
@@ -445,7 +474,7 @@ Definition step_req (cert : option N) (fault : bool) (s : st) (o : op) : st * op
       | Some (u, l) =>
           ({| issued := issued s; tokens := tokens s ++ [{| towner := u; texp := (now s + life)%Z |}];
               vip := vip s; txs := txs s; approved := approved s; chal := chal s; last_totp := last_totp s;
-              boot := boot s; proved := proved s; spent := spent s; now := now s; fresh := fresh s; minted := minted s; okta := okta s; opush := opush s; acks := acks s |}, None)
+              boot := boot s; proved := proved s; spent := spent s; now := now s; fresh := fresh s; minted := minted s; okta := okta s; opush := opush s; acks := acks s; saved_totp := saved_totp s |}, None)
       end
   | SendDoc cs tk =>
       match auth k s cert cs (webui k) with
@@ -465,7 +494,7 @@ Definition step_req (cert : option N) (fault : bool) (s : st) (o : op) : st * op
   | Tick dt =>
       ({| issued := issued s; tokens := tokens s; vip := vip s; txs := txs s; approved := approved s;
           chal := chal s; last_totp := last_totp s; boot := boot s; proved := proved s; spent := spent s;
-          now := (now s + Z.max 0 dt)%Z; fresh := fresh s; minted := minted s; okta := okta s; opush := opush s; acks := acks s |}, None)
+          now := (now s + Z.max 0 dt)%Z; fresh := fresh s; minted := minted s; okta := okta s; opush := opush s; acks := acks s; saved_totp := saved_totp s |}, None)
   | OktaOtp cs code =>
       match auth k s cert cs any_mask with
       | None => (s, None)
@@ -522,8 +551,10 @@ Definition step_req (cert : option N) (fault : bool) (s : st) (o : op) : st * op
             (set_ghost s2 ((u, F_OKTA, now s) :: proved s2) (spent s2), out)
           else (s, None)
       end
-  | Req _ _ _ => (s, None)      (* wrappers do not nest *)
+  | Req _ _ _ | Cached _ => (s, None)      (* wrappers do not nest *)
   end.
+
+End Step.
 
 (* presenting a verified client certificate proves possession of its key: factor KeymasterX509 for
    its user (ghost) *)
@@ -533,20 +564,19 @@ Definition present_cert (s : st) (cert : option N) : st :=
   | None => s
   end.
 
-Definition step (s : st) (o : op) : st * option cookie :=
+Definition step (k : config) (s : st) (o : op) : st * option cookie :=
   match o with
-  | Req cert fault o' => step_req cert fault (present_cert s cert) o'
-  | _ => step_req None false s o
+  | Req cert fault o' => step_req k cert fault (present_cert s cert) o'
+  | Cached o' => step_req (with_cache k) None false s o'
+  | _ => step_req k None false s o
   end.
 
-Fixpoint run (s : st) (ops : list op) : st * list (option cookie) :=
+Fixpoint run (k : config) (s : st) (ops : list op) : st * list (option cookie) :=
   match ops with
   | [] => (s, [])
-  | o :: r => let (s1, out) := step s o in
-              let (s2, outs) := run s1 r in (s2, out :: outs)
+  | o :: r => let (s1, out) := step k s o in
+              let (s2, outs) := run k s1 r in (s2, out :: outs)
   end.
-
-End Step.
 
 (* the code as repaired; `ok`: the password backend is the Okta authenticator, whose cached answers
    live `life` seconds *)
@@ -554,7 +584,7 @@ Definition fixed_with (d : N -> devices) (w : N) (ok : bool) (life : Z) : config
   {| devs := d; webui := w; cookie_life := 57600; sel_last := true; upg_last := true;
      vip_life := 120; vip_expiry := true; poll_checks_user := true; totp_monotone := true;
      chal_expiry := true; chal_delete_wa := true; upgrade_checks_owner := true;
-     okta_on := ok; okta_life := life |}.
+     okta_on := ok; okta_life := life; from_cache := false; totp_mem_guard := true |}.
 Definition fixed (d : N -> devices) (w : N) : config := fixed_with d w false 300.
 Definition fixed_okta (d : N -> devices) (w : N) (life : Z) : config := fixed_with d w true life.
 
@@ -580,7 +610,7 @@ Definition obs := (bool * option cookie * option N)%type.
 
 Definition step_obs (k : config) (s : st) (o : op) : st * obs :=
   let (s', out) := step k s o in
-  let ok := match (match o with Req _ _ o' => o' | _ => o end) with
+  let ok := match (match o with Req _ _ o' | Cached o' => o' | _ => o end) with
             | Logout _ | Approve _ | Tick _ | OktaApprove _ => true
             | _ => (match out with Some _ => true | None => false end) || changed s s'
             end in
